@@ -39,10 +39,19 @@ def gen_scenario(rng, index):
         # part of the history, not of the domain: a text the tree rejects (a deployment that went wrong) - nothing it does may
         # change what valid texts do afterwards
         progs.append(gen.gen_invalid(rng, rng.choice(progs), f"r{index}t{len(progs)}"))
+    huge = rng.random() < 0.08
+    if huge:
+        # numbers beyond the interpreter's int<->str limit, in a source text and as a unit id, in the same deployment
+        progs.append(gen.gen_invalid(rng, rng.choice([p for p in progs if p.kind == "valid"]), f"r{index}t{len(progs)}", kind="huge_literal"))
     texts = []
     for p in progs:
         texts.append({"tid": p.tid, "text": p.text, "splitters": p.splitters, "history_only": p.kind == "invalid",
                       "panel": gen.gen_panel(rng, p, n=rng.choice([6, 8, 10]), ascii_only=rng.random() < 0.7)})
+    if huge:
+        for t in texts:
+            if t["splitters"]:
+                for f in t["panel"][:3]:
+                    f[rng.choice(t["splitters"])] = dict(gen.HUGE_INT_MARKER)
     n_nodes = rng.choice([2, 2, 3, 3, 4, 5])
     nodes = [fleet.gen_env(rng) for _ in range(n_nodes)]
     n_ops = rng.choice([60, 120, 200, 300, 400])
@@ -121,7 +130,7 @@ class Runner:
             return self._run(sc, nodes)
         finally:
             for nd in nodes:
-                nd.kill()
+                nd.destroy()
 
     def _run(self, sc, nodes):
         texts = sc["texts"]
